@@ -1,4 +1,4 @@
-(* Driver for the extracted M-SCHEMA differ (argv[1] = sqlite | mysql | postgres).
+(* Driver for the extracted M-SCHEMA differ (argv[1] = sqlite | mysql | postgres | postgres-ns: PostgreSQL with the schema scope "public").
    Reads the case file the Go harness wrote (one diff call per line, format in
    harness/cmd/diff) and prints the model's canonical change list, in the
    order the model returns it (the order of the Go code). *)
@@ -141,6 +141,7 @@ let () =
     | "sqlite" -> sqlite_schema_diff, sqlite_table_diff
     | "mysql" -> mysql_schema_diff, mysql_table_diff
     | "postgres" -> pg_schema_diff, pg_table_diff
+    | "postgres-ns" -> pg_public_schema_diff, pg_public_table_diff
     | d -> failwith ("dialect " ^ d) in
   (try
     while true do
